@@ -104,6 +104,7 @@ class Gen:
             clone_frac=0.06,            # probability of a clone event per step (calls then go through any live instance)
             other_frac=0.06,            # probability that a call is made on another thread
             new_unwinding_frac=0.04,    # the mock is constructed by cleanup code while its thread unwinds
+            unw_call_frac=0.05,         # a call is made by cleanup code while its thread unwinds (a panic of the call is swallowed there)
             max_count=3,
             max_segments=3,
             nomatcher_frac=0.02,
@@ -252,6 +253,8 @@ class Gen:
             e = {"base": ("call", rng.choice(live), mid, arg)}
             if rng.random() < self.k["other_frac"]:
                 e["other"] = True
+            if rng.random() < self.k["unw_call_frac"]:
+                e["unwinding"] = True
             evs.append(e)
         if rng.random() < self.k["nvid_frac"]:
             evs.insert(rng.randint(0, len(evs)), {"base": ("nvid", 0)})
